@@ -139,39 +139,46 @@ func (ff *FuncFacts) linearize(v ssa.Value, depth int) lin {
 		return ff.linearize(x.X, depth+1)
 	case *ssa.Call:
 		if b, ok := x.Call.Value.(*ssa.Builtin); ok && b.Name() == "len" {
-			// len(X[lo:]) = len(X) - lo ; len(X[lo:hi]) = hi - lo
-			if sl, ok := x.Call.Args[0].(*ssa.Slice); ok {
-				lo := lin{"", 0, true}
-				if sl.Low != nil {
-					lo = ff.linearize(sl.Low, depth+1)
-				}
-				if lo.ok && lo.atom == "" {
-					if sl.High == nil {
-						if _, isArr := derefArray(sl.X.Type()); !isArr {
-							base := ff.lenAtom(sl.X)
-							return lin{base, -lo.c, true}
-						}
-					} else {
-						hi := ff.linearize(sl.High, depth+1)
-						if hi.ok {
-							return lin{hi.atom, hi.c - lo.c, true}
-						}
-					}
-				}
-			}
-			if arr, ok := derefArray(x.Call.Args[0].Type()); ok {
-				return lin{"", arr.Len(), true}
-			}
-			if mk, ok := x.Call.Args[0].(*ssa.MakeSlice); ok {
-				return ff.linearize(mk.Len, depth+1) // len(make(T, n)) == n
-			}
-			return lin{ff.lenAtom(x.Call.Args[0]), 0, true}
+			return ff.lenLin(x.Call.Args[0], depth)
 		}
 		if a, ok := ff.lenGetter(x); ok {
 			return lin{a, 0, true}
 		}
 	}
 	return lin{ff.Term(v), 0, true}
+}
+
+// lenLin: linear form of len(arg): len(X[lo:]) = len(X) - lo ; len(X[lo:hi]) = hi - lo ;
+// len(make(T, n)) = n ; arrays are constant.
+func (ff *FuncFacts) lenLin(arg ssa.Value, depth int) lin {
+	if sl, ok := arg.(*ssa.Slice); ok {
+		lo := lin{"", 0, true}
+		if sl.Low != nil {
+			lo = ff.linearize(sl.Low, depth+1)
+		}
+		if lo.ok && lo.atom == "" {
+			if sl.High == nil {
+				if _, isArr := derefArray(sl.X.Type()); !isArr {
+					base := ff.lenLin(sl.X, depth+1)
+					if base.ok {
+						return lin{base.atom, base.c - lo.c, true}
+					}
+				}
+			} else {
+				hi := ff.linearize(sl.High, depth+1)
+				if hi.ok {
+					return lin{hi.atom, hi.c - lo.c, true}
+				}
+			}
+		}
+	}
+	if arr, ok := derefArray(arg.Type()); ok {
+		return lin{"", arr.Len(), true}
+	}
+	if mk, ok := arg.(*ssa.MakeSlice); ok {
+		return ff.linearize(mk.Len, depth+1) // len(make(T, n)) == n
+	}
+	return lin{ff.lenAtom(arg), 0, true}
 }
 
 func (ff *FuncFacts) lenAtom(x ssa.Value) string { return "len(" + ff.Term(x) + ")" }
@@ -220,6 +227,7 @@ var lenContracts = map[string]map[int]int{
 	"cipher/encoder.DeserializeRaw":    {0: 0},
 	"cipher/encoder.DeserializeUint32": {1: 0},
 	"copy":                             {0: 0}, // n <= len(dst)
+	"base64.Encoding.Decode":           {0: 1}, // bytes written <= len(dst) (stdlib: writes into dst, panics rather than overrun)
 }
 
 // relContracts: ordering relations between results (r<k>) and arguments (a<k>) of a
@@ -415,20 +423,7 @@ func (ff *FuncFacts) factsAt(B *ssa.BasicBlock) *dbm {
 // addLenBound: v <= len(arg) — uses the linear form of len(arg).
 func (ff *FuncFacts) addLenBound(m *dbm, v ssa.Value, arg ssa.Value) {
 	lv := ff.linearize(v, 0)
-	// synthesize the linear form of len(arg)
-	var la lin
-	if sl, ok := arg.(*ssa.Slice); ok {
-		lo := lin{"", 0, true}
-		if sl.Low != nil {
-			lo = ff.linearize(sl.Low, 1)
-		}
-		if lo.ok && lo.atom == "" && sl.High == nil {
-			la = lin{ff.lenAtom(sl.X), -lo.c, true}
-		} else if lo.ok && lo.atom == "" && sl.High != nil {
-			hi := ff.linearize(sl.High, 1)
-			la = lin{hi.atom, hi.c - lo.c, hi.ok}
-		}
-	}
+	la := ff.lenLin(arg, 1)
 	if !la.ok {
 		la = lin{ff.lenAtom(arg), 0, true}
 	}
@@ -490,10 +485,7 @@ func (ff *FuncFacts) BoundSites() []BoundSite {
 				if arr, ok := derefArray(x.X.Type()); ok {
 					length = lin{"", arr.Len(), true}
 				} else {
-					length = lin{ff.lenAtom(x.X), 0, true}
-				}
-				if _, isStr := x.X.Type().Underlying().(*types.Basic); isStr {
-					length = lin{ff.lenAtom(x.X), 0, true}
+					length = ff.lenLin(x.X, 0)
 				}
 				if x.Low == nil && x.High == nil {
 					continue
